@@ -155,11 +155,34 @@ def binop(interp, op, a, b):
         return T('fmt', a, interp.termify(b))
     ta, tb = interp.termify(a), interp.termify(b)
     t = T('binop', sym, ta, tb)
-    if sym in ('+', '-', '*'):
+    if sym in ('+', '-', '*') and _intlike(interp, ta) and \
+            _intlike(interp, tb):
         la, lb = lin(ta), lin(tb)
         if la is not None and lb is not None:
-            return norm_int(t)
+            r = norm_int(t)
+            if isinstance(r, T):
+                interp.types[r] = 'int'
+            return r
     return t
+
+
+def _intlike(interp, v):
+    if isinstance(v, K):
+        return isinstance(v.v, int) and not isinstance(v.v, bool)
+    if isinstance(v, T):
+        if v.op in ('int', 'idx'):
+            return True
+        if interp.types.get(v) == 'int':
+            return True
+        if v.op == 'call' and v.args[0] == 'len':
+            return True
+        if v.op == 'elem' and isinstance(v.args[0], T) and \
+                v.args[0].op == 'range':
+            return True
+        if v.op == 'binop' and v.args[0] in ('+', '-', '*'):
+            return _intlike(interp, v.args[1]) and \
+                _intlike(interp, v.args[2])
+    return False
 
 
 _NOCONST = object()
@@ -758,6 +781,9 @@ def call_external(interp, f, args, kwargs):
                 r = interp.on_method(f.args[0], f.args[1], args, kwargs)
                 if r is not NotImplemented:
                     return r
+            if f.args[1] in interp.pure_methods:
+                return method_term(interp, f.args[0], f.args[1], args,
+                                   kwargs)
             return interp.opaque_call('.' + f.args[1], f,
                                       [f.args[0]] + list(args), kwargs)
         return interp.opaque_call(show(f), f, args, kwargs)
@@ -847,6 +873,11 @@ def method_term(interp, base, name, args, kwargs):
     if r is not NotImplemented:
         return r
     t = T('mcall', tb, name, *targs)
+    if name in interp.pure_methods:
+        if name in interp.method_raises:
+            interp.call_raises['.' + name] = interp.method_raises[name]
+            interp.may_raise('.' + name, t)
+        return t
     bt = interp.types.get(tb) if isinstance(tb, T) else (
         'str' if isinstance(tb, K) and isinstance(tb.v, str) else
         'bytes' if isinstance(tb, K) and isinstance(tb.v, bytes) else None)
